@@ -112,6 +112,9 @@ func genIndCase(rng *rand.Rand, tier string, equalOnly bool) *Case {
 	c.DataSeed = rng.Int63n(1 << 30)
 	if rng.Intn(2) == 0 {
 		c.Cap = rng.Intn(5)
+		if deepTier && rng.Intn(4) == 0 {
+			c.Cap = 5 + rng.Intn(60)
+		}
 	}
 	c.Policy = genPolicy(rng)
 	return c
@@ -135,6 +138,9 @@ func genStratCase(rng *rand.Rand, tier string) *Case {
 	c.DataSeed = rng.Int63n(1 << 30)
 	if rng.Intn(2) == 0 {
 		c.Cap = rng.Intn(5)
+		if deepTier && rng.Intn(4) == 0 {
+			c.Cap = 5 + rng.Intn(60)
+		}
 	}
 	c.Policy = genPolicy(rng)
 	return c
